@@ -9,6 +9,7 @@ import (
 	"os"
 	"strconv"
 	"strings"
+	"time"
 
 	sdk "github.com/cosmos/cosmos-sdk/types"
 
@@ -26,6 +27,26 @@ type action struct {
 	S      string `json:"s"`      // serial class
 	B      int    `json:"b"`      // create: which of the distinct bodies for (o, s)
 	Sp     string `json:"sp"`     // revoke: how the serial is spelled in the message ("" = canonical decimal of S)
+}
+
+// signerNames maps msg.GetSigners() to model owner ids.
+func (u *universe) signerNames(msg sdk.Msg) (out []string) {
+	defer func() {
+		if r := recover(); r != nil {
+			out = []string{"!panic"}
+		}
+	}()
+	out = []string{}
+	for _, a := range msg.GetSigners() {
+		name := "?"
+		for n, x := range u.addr {
+			if x.Equals(a) {
+				name = n
+			}
+		}
+		out = append(out, name)
+	}
+	return out
 }
 
 // serialText is the text a request carries for the serial: the given spelling, or the canonical decimal.
@@ -48,22 +69,24 @@ type edge struct {
 
 // step is one ndjson line of the recorded trace.
 type step struct {
-	Ev     string  `json:"ev"` // load | create | revoke
-	Signer string  `json:"signer"`
-	Mo     string  `json:"mo"`
-	O      string  `json:"o"`
-	S      string  `json:"s"`
-	B      int     `json:"b"`
-	Sp     string  `json:"sp"`  // revoke: the spelling of the serial in the message ("" = canonical decimal)
-	Iss    string  `json:"iss"` // create: the account in the ISSUER name of the submitted certificate (information)
-	OK     bool    `json:"ok"`
-	Stage  string  `json:"stage"`
-	Err    string  `json:"err"`
-	Reg    []entry `json:"reg"` // projected registry AFTER the step
-	Sid    string  `json:"sid"`
-	HasQ   bool    `json:"hasq"`
-	Q      []qres  `json:"q"`
-	Note   string  `json:"note"`
+	Ev      string   `json:"ev"` // load | create | revoke
+	Signer  string   `json:"signer"`
+	Mo      string   `json:"mo"`
+	O       string   `json:"o"`
+	S       string   `json:"s"`
+	B       int      `json:"b"`
+	Sp      string   `json:"sp"`      // revoke: the spelling of the serial in the message ("" = canonical decimal)
+	Signers []string `json:"signers"` // msg.GetSigners() as model owner ids
+	Digests []string `json:"digests"` // det mode: one digest (result, gas, events, store bytes) per repetition
+	Iss     string   `json:"iss"`     // create: the account in the ISSUER name of the submitted certificate (information)
+	OK      bool     `json:"ok"`
+	Stage   string   `json:"stage"`
+	Err     string   `json:"err"`
+	Reg     []entry  `json:"reg"` // projected registry AFTER the step
+	Sid     string   `json:"sid"`
+	HasQ    bool     `json:"hasq"`
+	Q       []qres   `json:"q"`
+	Note    string   `json:"note"`
 }
 
 type runner struct {
@@ -75,6 +98,10 @@ type runner struct {
 }
 
 func (r *runner) exec(parent sdk.Context, a action) (txResult, sdk.Context, func(), error) {
+	return r.execOn(r.c, parent, a)
+}
+
+func (r *runner) execOn(c *chain, parent sdk.Context, a action) (txResult, sdk.Context, func(), error) {
 	nop := func() {}
 	signer, ok := r.u.addr[a.Signer]
 	if !ok {
@@ -87,7 +114,8 @@ func (r *runner) exec(parent sdk.Context, a action) (txResult, sdk.Context, func
 			return txResult{}, parent, nop, fmt.Errorf("no certificate %s/%s/%d", a.O, a.S, a.B)
 		}
 		msg := &ctypes.MsgCreateCertificate{Owner: r.u.addr[a.Mo].String(), Cert: cb.CertPEM, Pubkey: cb.PubPEM}
-		res, next, commit := r.c.runTx(parent, signer, msg, msgCreatePath)
+		res, next, commit := c.runTx(parent, signer, msg, msgCreatePath)
+		res.Signers = r.u.signerNames(msg)
 		return res, next, commit, nil
 	case "revoke":
 		txt, err := serialText(a.S, a.Sp)
@@ -95,7 +123,8 @@ func (r *runner) exec(parent sdk.Context, a action) (txResult, sdk.Context, func
 			return txResult{}, parent, nop, err
 		}
 		msg := &ctypes.MsgRevokeCertificate{ID: ctypes.CertificateID{Owner: r.u.addr[a.O].String(), Serial: txt}}
-		res, next, commit := r.c.runTx(parent, signer, msg, msgRevokePath)
+		res, next, commit := c.runTx(parent, signer, msg, msgRevokePath)
+		res.Signers = r.u.signerNames(msg)
 		return res, next, commit, nil
 	}
 	return txResult{}, parent, nop, fmt.Errorf("unknown action kind %q", a.K)
@@ -128,6 +157,12 @@ func (u *universe) issuerName(a action) string {
 }
 
 func (r *runner) write(s step) error {
+	if s.Signers == nil {
+		s.Signers = []string{}
+	}
+	if s.Digests == nil {
+		s.Digests = []string{}
+	}
 	if s.Reg == nil {
 		s.Reg = []entry{}
 	}
@@ -192,7 +227,7 @@ func (r *runner) graph(edges []edge, qmode string, pathsOut string) error {
 				return err
 			}
 			id := stateID(ents)
-			st := step{Ev: e.Act.K, Signer: e.Act.Signer, Mo: e.Act.Mo, O: e.Act.O, S: e.Act.S, B: e.Act.B, Sp: e.Act.Sp, Iss: r.u.issuerName(e.Act),
+			st := step{Ev: e.Act.K, Signer: e.Act.Signer, Mo: e.Act.Mo, O: e.Act.O, S: e.Act.S, B: e.Act.B, Sp: e.Act.Sp, Signers: res.Signers, Iss: r.u.issuerName(e.Act),
 				OK: res.OK, Stage: res.Stage, Err: res.Err, Reg: ents, Sid: id}
 			_, seen := reps[id]
 			if !seen {
@@ -271,7 +306,7 @@ func (r *runner) paths(scripts [][]action) error {
 			if err != nil {
 				return err
 			}
-			st := step{Ev: a.K, Signer: a.Signer, Mo: a.Mo, O: a.O, S: a.S, B: a.B, Sp: a.Sp, Iss: r.u.issuerName(a), OK: res.OK, Stage: res.Stage,
+			st := step{Ev: a.K, Signer: a.Signer, Mo: a.Mo, O: a.O, S: a.S, B: a.B, Sp: a.Sp, Signers: res.Signers, Iss: r.u.issuerName(a), OK: res.OK, Stage: res.Stage,
 				Err: res.Err, Reg: ents, Sid: stateID(ents), HasQ: true, Q: r.c.queries(ctx, r.u, r.ps)}
 			if res.OK {
 				r.stats["accepted"]++
@@ -300,7 +335,7 @@ func splitList(s string) []string {
 // Main is the entry point of `vh cert <mode> ...`. Exit codes: 0 done, 2 harness failure. It never judges.
 func Main(args []string) int {
 	if len(args) < 1 {
-		fmt.Fprintln(os.Stderr, "usage: vh cert info|graph|paths|deliver [flags]")
+		fmt.Fprintln(os.Stderr, "usage: vh cert info|graph|paths|deliver|det [flags]")
 		return 2
 	}
 	mode := args[0]
@@ -313,8 +348,10 @@ func Main(args []string) int {
 	pss := fs.String("pagesizes", "1,2,0", "page sizes; 0 = no pagination")
 	in := fs.String("in", "", "edges (graph) or scripts (paths) ndjson file")
 	outp := fs.String("out", "", "trace ndjson to write")
+	reps := fs.Int("reps", 2, "det mode: executions of every transaction on sibling branches, per pass")
+	window := fs.Int("window", 2500, "det mode: ms from certificate generation to the validity edge of the timed bodies")
 	pathsOut := fs.String("pathsout", "", "graph mode: write {state id: script that reached it} here")
-	qmode := fs.String("queries", "accepted", "graph mode: run the queries after accepted steps | new states only | all steps")
+	qmode := fs.String("queries", "accepted", "graph mode: run the queries after accepted steps | new states only | all steps; none: no queries in any mode")
 	if err := fs.Parse(args[1:]); err != nil {
 		return 2
 	}
@@ -352,6 +389,7 @@ func Main(args []string) int {
 	if err != nil {
 		return fail(err)
 	}
+	c.noq = *qmode == "none"
 	r := &runner{c: c, u: u, ps: ps, w: w, stats: map[string]int{}}
 	switch mode {
 	case "graph":
@@ -369,7 +407,7 @@ func Main(args []string) int {
 		if err := r.graph(edges, *qmode, *pathsOut); err != nil {
 			return fail(err)
 		}
-	case "paths", "deliver":
+	case "paths", "deliver", "det":
 		var scripts [][]action
 		if err := vcommon.ReadLines(*in, func(raw json.RawMessage) error {
 			var sc []action
@@ -383,6 +421,8 @@ func Main(args []string) int {
 		}
 		if mode == "deliver" {
 			err = r.deliverScripts(scripts, u.Owners)
+		} else if mode == "det" {
+			err = r.det(scripts, *reps, time.Duration(*window)*time.Millisecond)
 		} else {
 			err = r.paths(scripts)
 		}
